@@ -113,7 +113,7 @@ def run_job(job):
                 if 'C02' in oracles:
                     v += R.c02(run, pr, pq)
                 if 'C03' in oracles:
-                    v += R.c03(run)
+                    v += R.c03(run, events)
                 if 'C04' in oracles:
                     v += R.c04(run, (params['sp'], params['dp'], params['su'], params['d']), events)
                 if 'C05' in oracles:
@@ -204,13 +204,15 @@ def c18(run, d, mode):
     return v
 
 
-def run(repo, tier, seed, oracles, modes, nsets, params_list=None, kinds=None, weights=None, fid_hint='', rule='', odd_refs=False):
+def run(repo, tier, seed, oracles, modes, nsets, params_list=None, kinds=None, weights=None, fid_hint='', rule='', odd_refs=False, overrides=None):
     jobs = []
     rnd = random.Random(seed)
     params_list = params_list or [{}]
     for i in range(nsets):
         jobs.append(dict(seed=seed * 100003 + i, modes=modes if not callable(modes) else modes(i), params=params_list[i % len(params_list)],
                          oracles=oracles, kinds=kinds or pl.KINDS, weights=weights, odd_refs=odd_refs))
+        if overrides is not None:
+            jobs[-1].update(overrides(i) or {})
     res = pmap(run_job, jobs, repo, timeout=3000)
     viol, known = {}, {}
     for r in res:
